@@ -178,6 +178,38 @@ fn main() {
                 Verdict::Inconclusive { .. } => std::process::exit(3),
             }
         }
+        "gen" => {
+            // simcheck gen <engine:profile> <first> <count> [knob]   write seed-only replay files of generated runs
+            // (optionally only those that carry the knob) to /dev/shm/simcheck-gen and print them
+            if args.len() < 5 {
+                usage();
+            }
+            let (engine, property) = engines::parse_label(&args[2]);
+            let first: u64 = args[3].parse().unwrap();
+            let count: u64 = args[4].parse().unwrap();
+            let label = format!("{}:{}", engine.name(), property);
+            let _ = std::fs::create_dir_all("/dev/shm/simcheck-gen");
+            for run in first..first + count {
+                let seed = tape::run_seed(top_seed(), &label, run);
+                let sc = engines::generate(engine, &property, seed, "quick");
+                if let Some(k) = args.get(5) {
+                    if sc.knob(k, 0) == 0 {
+                        continue;
+                    }
+                }
+                let path = format!("/dev/shm/simcheck-gen/{}-{}-{run}.json", engine.name(), property);
+                let file = ReplayFile {
+                    version: scenario::REPLAY_VERSION,
+                    scenario: sc.clone(),
+                    sched: Tape::fresh(tape::mix(seed, 0x5C4ED)),
+                    fault: Tape::fresh(tape::mix(seed, 0xFA017)),
+                    rule: format!("crash-seeded:{seed}"),
+                    detail: String::new(),
+                };
+                std::fs::write(&path, serde_json::to_vec(&file).unwrap()).unwrap();
+                println!("{path} knobs={:?} ops={:?}", sc.knobs, sc.clients.iter().map(|c| c.len()).collect::<Vec<_>>());
+            }
+        }
         "smoke" => {
             if args.len() < 4 {
                 usage();
